@@ -180,6 +180,9 @@ def engine : Engine DState where
   step d toks impl :=
     match toks with
     | ["reset"] => ({}, { model := "ok" })
+    -- the harness announces that the peer's wire ids are offset by a constant (ids beyond 2^53); the model
+    -- and all records use the logical ids
+    | ["idbase", _] => (d, { model := "ok" })
     | ["end"] =>
       let model := match d.st with
         | none => "model-disabled"
